@@ -46,6 +46,8 @@ package coq
 //@   ensures format == "From Goose Require %s.%s." && len(a) == 2 && typeis(a[0], string) && typeis(a[1], string) ==> result == "From Goose Require " + a[0].(string) + "." + a[1].(string) + "."
 //@   ensures format == "From Perennial.goose_lang.trusted Require Import %s.%s." && len(a) == 2 && typeis(a[0], string) && typeis(a[1], string) ==> result == "From Perennial.goose_lang.trusted Require Import " + a[0].(string) + "." + a[1].(string) + "."
 
+//@   ensures format == "From Goose Require %s." && len(a) == 1 && typeis(a[0], string) ==> result == "From Goose Require " + a[0].(string) + "."
+//@   ensures format == "From Perennial.goose_lang.trusted Require Import %s." && len(a) == 1 && typeis(a[0], string) ==> result == "From Perennial.goose_lang.trusted Require Import " + a[0].(string) + "."
 //@   ensures format == "From Perennial.goose_lang Require Import ffi.%s_prelude." && len(a) == 1 && typeis(a[0], string) ==> result == "From Perennial.goose_lang Require Import ffi." + a[0].(string) + "_prelude."
 
 //@ props C08
@@ -57,9 +59,8 @@ package coq
 //@ ghost func coqdeclOf(d ImportDecl) string = pure(string, "coqdecl", d)
 //@ func (ImportDecl).CoqDecl
 //@   ghost_ensures result == coqdeclOf(decl)
-//@   ensures [Require line names the mapped import path] multi(cpath(decl.Path)) && !decl.Trusted ==> result == "From Goose Require " + slashdot(cpath(decl.Path)) + "."
-//@   ensures [trusted packages use the trusted namespace] multi(cpath(decl.Path)) && decl.Trusted ==> result == "From Perennial.goose_lang.trusted Require Import " + slashdot(cpath(decl.Path)) + "."
-//@   ensures [single-component import paths] !multi(cpath(decl.Path)) && pdir(cpath(decl.Path)) == "." && !decl.Trusted ==> result == "From Goose Require " + cpath(decl.Path) + "."
+//@   ensures [Require line names the mapped import path] !decl.Trusted ==> result == "From Goose Require " + slashdot(cpath(decl.Path)) + "."
+//@   ensures [trusted packages use the trusted namespace] decl.Trusted ==> result == "From Perennial.goose_lang.trusted Require Import " + slashdot(cpath(decl.Path)) + "."
 
 // sort.Strings: a sorted permutation (duplicate-freedom and the set of elements are preserved)
 //@ ghost func sortedstr(s []string) bool = forall i int, j int :: s.off <= i && i < j && j < s.off + len(s) ==> elemat(s, i) <= elemat(s, j)
